@@ -84,6 +84,9 @@ PROPS = {
                         "the bounded peg adjustment is mirrored, not bounded by a theorem: proved is that pegging touches nothing but the MEL/SYM pool"],
     },
     "C02": {
+        # the property fixes which batches / blocks are accepted: an input on which the implementation accepts what the
+        # proved model rejects (or the other way round) is an input on which the property fails
+        "verdict_is_spec": True,
         "modules": ["C02"],
         "streams": [{"name": "apply", "quick": 180, "thorough": 7200}, {"name": "chain", "quick": 75, "thorough": 2400}],
         "projection": "coins_after_batch",
@@ -101,6 +104,9 @@ PROPS = {
                         "C03_perm assumes hash-distinct transactions, fresh created coin ids, the count invariant and that faucet pseudo-coins are not spent inside the batch (PermPre)"],
     },
     "C04": {
+        # the property fixes which batches / blocks are accepted: an input on which the implementation accepts what the
+        # proved model rejects (or the other way round) is an input on which the property fails
+        "verdict_is_spec": True,
         "modules": ["C04"],
         "streams": [{"name": "apply", "quick": 120, "thorough": 4800}, {"name": "cov", "quick": 150, "thorough": 4800}, {"name": "exec", "quick": 500, "thorough": 30000}],
         "projection": "status",
@@ -108,6 +114,9 @@ PROPS = {
         "assumptions": ["Ed25519 verification and blake3 are parameters: the model is given the answers the real executor obtained (hook log) and a missing answer is a disagreement"],
     },
     "C05": {
+        # the property fixes which batches / blocks are accepted: an input on which the implementation accepts what the
+        # proved model rejects (or the other way round) is an input on which the property fails
+        "verdict_is_spec": True,
         "modules": ["C05", "PinC05"],
         "streams": [{"name": "apply", "quick": 180, "thorough": 7200}, {"name": "seal", "quick": 90, "thorough": 3200}, {"name": "weight", "quick": 200, "thorough": 9000}],
         "projection": "fees",
@@ -115,6 +124,9 @@ PROPS = {
         "assumptions": ["the serialised length of a transaction is an input of the model (supplied by the implementation)"],
     },
     "C06": {
+        # the property fixes which batches / blocks are accepted: an input on which the implementation accepts what the
+        # proved model rejects (or the other way round) is an input on which the property fails
+        "verdict_is_spec": True,
         "modules": ["C06"],
         "streams": [{"name": "chain", "quick": 120, "thorough": 4000}],
         "projection": "blocks",
@@ -137,6 +149,9 @@ PROPS = {
         "assumptions": ["the content-addressed store is not modelled: fromBlock is given the tree contents the header's roots denote"],
     },
     "C13": {
+        # the property fixes which batches / blocks are accepted: an input on which the implementation accepts what the
+        # proved model rejects (or the other way round) is an input on which the property fails
+        "verdict_is_spec": True,
         "modules": ["C13", "C13Life", "PinC13"],
         "streams": [{"name": "stake", "quick": 180, "thorough": 6400}, {"name": "apply", "quick": 90, "thorough": 3200}, {"name": "chain", "quick": 60, "thorough": 2400},
                     {"name": "confirm", "quick": 60, "thorough": 3200}],
@@ -146,6 +161,9 @@ PROPS = {
         "assumptions": ["the decoded StakeDoc of a transaction's data is an input of the model (decoded by the real stdcode)"],
     },
     "C18": {
+        # the property fixes which batches / blocks are accepted: an input on which the implementation accepts what the
+        # proved model rejects (or the other way round) is an input on which the property fails
+        "verdict_is_spec": True,
         "modules": ["C18", "PinC18"],
         "streams": [{"name": "mint", "quick": 360, "thorough": 12000}, {"name": "apply", "quick": 90, "thorough": 3200}],
         "projection": "speed",
@@ -153,6 +171,9 @@ PROPS = {
         "assumptions": ["MelPoW verification is a parameter: the verdict for the puzzle (header at the coin's height, coin id) is computed by the harness from the specification with the real melpow and shipped to the model"],
     },
     "C19": {
+        # the property fixes which batches / blocks are accepted: an input on which the implementation accepts what the
+        # proved model rejects (or the other way round) is an input on which the property fails
+        "verdict_is_spec": True,
         "modules": ["C19", "C19Life"],
         "streams": [{"name": "faucet", "quick": 180, "thorough": 6400}, {"name": "apply", "quick": 90, "thorough": 3200}, {"name": "chain", "quick": 60, "thorough": 2400}],
         "projection": "coins_after_batch",
